@@ -153,12 +153,21 @@ def run_case(case):
                     if not cols:
                         continue
                     expected = R.EngineError
+                    bad_e = ["rfn", "neg", [["ref", some]], none_supported]
+                    bad_p = ["rcmp", "lt", ["ref", some], ["lit", 1], none_supported]
+                    nest = rng.random()
+                    if nest < 0.35:
+                        # the unsupported call is an argument of a function that itself declares
+                        # support for every engine (explicitly or by default)
+                        everywhere = ["sql", "it"]
+                        bad_e = rng.choice([["rfn", "add", [bad_e, ["lit", 0]], everywhere], ["add", ["lit", 0], bad_e], ["rfn", "neg", [["rfn", "sub", [["ref", some], bad_e], everywhere]], everywhere]])
+                        bad_p = rng.choice([["rcmp", "lt", bad_e, ["lit", 1], everywhere], ["cmp", "ge", bad_e, ["lit", 0]], ["not", ["rcmp", "eq", ["lit", 1], bad_e, everywhere]]])
                     if edit == "unsupported_calc":
-                        calls = [(o, lambda kw: rel.with_calculated_column(T(free[0]), exprs.elib(["rfn", "neg", [["ref", some]], none_supported]), **kw)) for o in combos]
+                        calls = [(o, lambda kw: rel.with_calculated_column(T(free[0]), exprs.elib(bad_e), **kw)) for o in combos]
                     elif edit == "unsupported_sel":
-                        calls = [(o, lambda kw: rel.with_rows_satisfying(exprs.plib(["rcmp", "lt", ["ref", some], ["lit", 1], none_supported]), **kw)) for o in combos]
+                        calls = [(o, lambda kw: rel.with_rows_satisfying(exprs.plib(bad_p), **kw)) for o in combos]
                     else:
-                        calls = [(o, lambda kw: rel.sorted([R.SortTerm(exprs.elib(["rfn", "neg", [["ref", some]], none_supported]))], **kw)) for o in combos]
+                        calls = [(o, lambda kw: rel.sorted([R.SortTerm(exprs.elib(bad_e))], **kw)) for o in combos]
                 elif edit == "join_min_columns":
                     # explicit Join.min_columns / resolved common columns that the target does not have
                     if rel.is_join_identity:
